@@ -1,7 +1,8 @@
 PROP = {'id': 'C13',
  'level': 'proof',
- 'functions': ['_update_with_blocking_jobs', 'Cluster.prepare_for_resubmission', 'resubmit_jobs'],
- 'native': ['_update_with_blocking_jobs', 'Cluster.prepare_for_resubmission', 'resubmit_jobs'],
+ 'functions': ['ResultsSummary.get_result', 'ResultsSummary.get_results_by_type', 'ResultsSummary.get_missing_jobs', '_get_jobs_to_resubmit',
+               '_update_with_blocking_jobs', 'Cluster.prepare_for_resubmission', 'resubmit_jobs'],
+ 'native': ['_get_jobs_to_resubmit', '_update_with_blocking_jobs', 'Cluster.prepare_for_resubmission', 'resubmit_jobs'],
  'lemmas': ['lemma_count_in', 'lemma_fold_schemas'],
  'records': ['Cluster', 'ClusterConfig', 'JobStatus', 'Job', 'JobConfiguration'],
  'min_obligations': 300,
@@ -11,13 +12,16 @@ PROP = {'id': 'C13',
                  're-proved here',
                  'finite-set primitives (|A+{x}| = |A| + [x not in A], inclusion-exclusion, subset => <=) are trusted; the counting schema is proved in '
                  'lemma_count_in'],
- 'not_decided': ['_get_jobs_to_resubmit (flag selection over ResultsSummary: a list mixing Result and Job objects, outside the typed subset): ASSUMED in the '
-                 'proof of the callback (result is a set of configured names), its selection by flags is not decided',
+ 'not_decided': ['ResultsSummary.__init__ (json + deserialize_results: results.json parsed into a dict keyed by each row\'s own name) is an assumed boundary '
+                 'contract of _get_jobs_to_resubmit, bounded by the selection harness on real files',
                  'ResultsAggregator.clear_results_for_resubmission (result pruning through the csv module): assumed boundary contract of _reset_results '
                  '(exactly the rows of the set are removed)',
                  'resubmit-jobs --submission-groups-file: the replaced groups are unconstrained objects in the proof and the command does not re-validate '
                  'them; the callback contract is restricted to the path without that option'],
- 'explanation': "_update_with_blocking_jobs: the set only grows, ends closed under 'has a blocker in the set' and sound (every added job has a blocker in the "
+ 'explanation': "_get_jobs_to_resubmit: the returned set is EXACTLY the names selected by the flags (failed or canceled rows with --failed, "
+                "successful rows with --successful, configured jobs without a row with --missing), proved through get_results_by_type (each of the "
+                "three lists is sound and complete for its class) and get_missing_jobs; the list that mixes Result rows and Job records is typed by a "
+                "union record whose attribute reads dispatch on a class tag. _update_with_blocking_jobs: the set only grows, ends closed under 'has a blocker in the set' and sound (every added job has a blocker in the "
                 "set), the returned map is exactly blockers-restricted-to-rerun-jobs, and JADE's own iteration-bound assertion cannot fail (cardinality "
                 'argument). prepare_for_resubmission: exactly the selected jobs are reset to NOT_SUBMITTED with those blockers, every other job keeps state '
                 'and blockers, flags and counters are reset consistently (counters: when every unselected job ran - otherwise finding F8). The resubmit_jobs '
